@@ -83,7 +83,12 @@ def probe_portfolio(spec):
         o['out_r_error'] = repr(e)[:300]
     if not opts.get('no_solve'):
         try:
-            res = op.optimize(**opts.get('optimize', {}))
+            kw = dict(opts.get('optimize', {}))
+            if opts.get('robust'):
+                # robust target over perturbed price scenarios; the reported value is documented to be that of the original prices
+                ps = [{k: (v * f if k.startswith('p') else v) for k, v in prices.items()} for f in (0.5, 1.5, 0.75)][:int(opts['robust'])]
+                kw.update(target='robust', samples=portf.create_cost_samples(ps, tg))
+            res = op.optimize(**kw)
         except Exception as e:
             res = None
             o['solve_error'] = repr(e)[:300]
